@@ -128,6 +128,14 @@ def _run_job(job):
     try:
         mod = __import__(modname, fromlist=["x"])
         res = getattr(mod, funcname)(**kwargs)
+        if isinstance(res, Tally):
+            # what travels back to the main process is plain data only: the main process does not import the library under
+            # test, so an object of one of its classes inside a recorded case (e.g. junk returned by a changed library)
+            # could not even be unpickled there (and would take the pool's result thread down with it)
+            res.violations = [{"why": str(v["why"]), "case": jsonable(v["case"])} for v in res.violations]
+            res.samples = [jsonable(x) for x in res.samples]
+            res.known_examples = {k: jsonable(v) for k, v in res.known_examples.items()}
+            res.errors = [str(e) for e in res.errors]
         return res
     except BaseException:
         t = Tally()
